@@ -576,6 +576,7 @@ def run_native_unit(uid, cfg, tier='quick'):
     env = dict(os.environ)
     env['CARGO_NET_OFFLINE'] = 'true'
     env['CARGO_TARGET_DIR'] = os.path.join(BUILD, 'native-target', uid)
+    env['VERIF_TIER'] = tier
     seed = os.environ.get('VERIF_SEED', '0') or '0'
     cmd = ['cargo', '+' + cfg.get('toolchain', 'nightly-2025-03-28'), 'run', '--offline', '--quiet', '--bin', cfg['bin'], '--', seed]
     res['cmd'] = ' '.join(cmd)
